@@ -609,4 +609,479 @@ theorem cert_canonical (i : CertInputs) (sig : Bytes)
     Bool.and_self, Bool.true_and, beq_self_eq_true, Bool.or_true, if_true]
   rfl
 
+/-! ### the whole CRL -/
+
+open Rcgen.Proofs.CrlDecode in
+theorem canonical_invalidity (dt : DateTime) (h : checkTime dt = none) :
+    canonical (invalidityDateNode dt) = true := by
+  have he : timeEncodable dt = true := by
+    unfold checkTime at h; split at h <;> simp_all
+  have ht := Theorems.C09.generalized_same_instant dt ((Theorems.C09.encodable_iff_utc_year dt).1 he)
+  simp only [invalidityDateNode, writeGeneralized, Asn1.genTime, asTime, Option.map_eq_some_iff] at ht ⊢
+  obtain ⟨t, ht, _⟩ := ht
+  simp [canonical, primCanonical, ht]
+
+theorem canonical_idpValue (idp : CrlIdp) :
+    canonical (idpValue idp) = true ∧ idpValueOk (idpValue idp) = true := by
+  obtain ⟨uris, scope⟩ := idp
+  have h := canonical_dpNameUris uris
+  have hf : idpFlagOk (dpNameUris uris) = true := by
+    simp [dpNameUris, Asn1.implicit, Asn1.seq, idpFlagOk]
+  cases scope with
+  | none =>
+    exact ⟨by simp [idpValue, Asn1.seq, canonical, canonicalList, h],
+      by simp [idpValue, Asn1.seq, idpValueOk, hf]⟩
+  | some sc =>
+    cases sc
+    · exact ⟨by simp [idpValue, Asn1.seq, Asn1.implicit, Asn1.bool, canonical, canonicalList, primCanonical, h],
+        by simp only [idpValue, Asn1.seq, Asn1.implicit, Asn1.bool, idpValueOk, List.all_cons, List.all_nil, hf, Bool.true_and, Bool.and_true]; rfl⟩
+    · exact ⟨by simp [idpValue, Asn1.seq, Asn1.implicit, Asn1.bool, canonical, canonicalList, primCanonical, h],
+        by simp only [idpValue, Asn1.seq, Asn1.implicit, Asn1.bool, idpValueOk, List.all_cons, List.all_nil, hf, Bool.true_and, Bool.and_true]; rfl⟩
+
+open Rcgen.Proofs.CrlDecode in
+theorem entryExts_canonical (r : RevokedCert) (hw : WFList (entryExtNodes r))
+    (hinv : ∀ d, r.invalidityDate = some d → checkTime d = none) :
+    ∀ t ∈ entryExtNodes r, extCanonical t = true ∧ canonical t = true := by
+  intro t ht
+  have htw : t.WF := wfList_mem hw ht
+  simp only [entryExtNodes, List.mem_append] at ht
+  rcases ht with ht | ht
+  · cases hr : r.reason with
+    | none => simp [hr] at ht
+    | some x =>
+      simp only [hr, List.mem_singleton] at ht; subst ht
+      exact ext_ok [2, 5, 29, 21] false (.enumOfNat x.code) (by decide)
+        (by simp [Asn1.enumOfNat, tagsOk]) htw (canonical_enumOfNat _) (by simp)
+  · cases hd : r.invalidityDate with
+    | none => simp [hd] at ht
+    | some d =>
+      simp only [hd, List.mem_singleton] at ht; subst ht
+      exact ext_ok [2, 5, 29, 24] false (invalidityDateNode d) (by decide)
+        (by simp [invalidityDateNode, writeGeneralized, Asn1.genTime, tagsOk]) htw
+        (canonical_invalidity d (hinv d hd))
+        (by simp [invalidityDateNode, writeGeneralized, Asn1.genTime, invDateOk])
+
+open Rcgen.Proofs.CrlDecode in
+theorem revokedNode_canonical (r : RevokedCert) (hw : (revokedNode r).WF)
+    (ht : checkTime r.revocationTime = none)
+    (hinv : ∀ d, r.invalidityDate = some d → checkTime d = none) :
+    canonical (revokedNode r) = true ∧ crlEntryOk (revokedNode r) = true := by
+  have hs := canonical_intOfBytes r.serial
+  have hd := canonical_time r.revocationTime ht
+  have hc := timeChoiceOk_writeTime r.revocationTime ht
+  rw [revokedNode_eq] at hw ⊢
+  cases hb : (hasReason r || r.invalidityDate.isSome) with
+  | false =>
+    constructor
+    · simp [hb, Asn1.seq, canonical, canonicalList, hs, hd]
+    · simp [hb, Asn1.seq, crlEntryOk, hc]
+  | true =>
+    simp only [hb, if_true, Asn1.seq, Asn1.WF, WFList, List.cons_append, List.nil_append] at hw
+    have hwl : WFList (entryExtNodes r) := hw.2.2.2.2.2.1.2.2.2
+    have he := entryExts_canonical r hwl hinv
+    have hel : canonicalList (entryExtNodes r) = true := by
+      rw [canonicalList_eq_all, List.all_eq_true]; exact fun t ht => (he t ht).2
+    have hea : (entryExtNodes r).all extCanonical = true := by
+      rw [List.all_eq_true]; exact fun t ht => (he t ht).1
+    constructor
+    · simp [hb, Asn1.seq, canonical, canonicalList, hs, hd, hel]
+    · simp [hb, Asn1.seq, crlEntryOk, hc, extsCanonical, hea]
+
+open Rcgen.Proofs.CrlDecode in
+theorem crlExts_canonical (i : CrlInputs) (hw : WFList (crlExtensions i.H i.p i.issuer)) :
+    ∀ t ∈ crlExtensions i.H i.p i.issuer, extCanonical t = true ∧ canonical t = true := by
+  intro t ht
+  have htw : t.WF := wfList_mem hw ht
+  simp only [crlExtensions, List.mem_append, List.mem_cons, List.not_mem_nil, or_false] at ht
+  rcases ht with (rfl | rfl) | ht
+  · exact ext_ok _ _ _ (by decide) (by simp [Asn1.seq, Asn1.implicit, Asn1.octets, tagsOk, tagsOkList])
+      htw (by simp [Asn1.seq, Asn1.implicit, Asn1.octets, canonical, canonicalList, primCanonical]) (by simp)
+  · exact ext_ok [2, 5, 29, 20] false (.intOfBytes i.p.crlNumber) (by decide)
+      (by simp [Asn1.intOfBytes, tagsOk]) htw (canonical_intOfBytes _) (by simp)
+  · cases hd : i.p.idp with
+    | none => simp [hd] at ht
+    | some d =>
+      simp only [hd, List.mem_singleton] at ht; subst ht
+      exact ext_ok [2, 5, 29, 28] true (idpValue d) (by decide) (tagsOk_idpValue d) htw
+        (canonical_idpValue d).1 (by simpa using (canonical_idpValue d).2)
+
+theorem crlFieldOk_time (dt : DateTime) (h : checkTime dt = none) :
+    crlFieldOk (writeTime dt) = true := by
+  have hc := timeChoiceOk_writeTime dt h
+  unfold writeTime at hc ⊢
+  simp only at hc ⊢
+  split
+  · rfl
+  · rename_i hn
+    simp only [hn, if_false] at hc
+    simpa [Asn1.genTime, crlFieldOk] using hc
+
+/-- the signed CRL as a tree -/
+def signedCrl (i : CrlInputs) (sig : Bytes) : Asn1 :=
+  .seq [tbsCertList i.H i.p i.issuer, algIdent i.issuer.key.alg, .bitStringOctets sig]
+
+open Rcgen.Proofs.CrlDecode in
+theorem crl_canonical (i : CrlInputs) (sig : Bytes)
+    (hinv : crlInvalid i.p i.issuer = none)
+    (hnp : crlPanics i.p i.issuer = false)
+    (hcanon : nameCanon i.issuer.dn = true)
+    (hsize : (encode (signedCrl i sig)).length < 256 ^ 126) :
+    crlCanonical (encode (signedCrl i sig)) = true := by
+  have htags : tagsOk (signedCrl i sig) = true := by
+    simp [signedCrl, Asn1.seq, Asn1.bitStringOctets, Asn1.bitString, tagsOk, tagsOkList,
+      tagsOk_tbsCrl, tagsOk_algIdent]
+  have hwf := wf_of_tagsOk _ htags hsize
+  unfold crlCanonical
+  rw [decodeAll_encode _ hwf]
+  have htbs_wf : (tbsCertList i.H i.p i.issuer).WF := by
+    simp only [signedCrl, Asn1.seq, Asn1.WF, WFList] at hwf
+    exact hwf.2.2.2.1
+  unfold crlInvalid at hinv
+  rw [Theorems.C10.firstErr_none] at hinv
+  have ht1 := hinv (checkTime i.p.thisUpdate) (by simp)
+  have ht2 := hinv (checkTime i.p.nextUpdate) (by simp)
+  have htr : ∀ r ∈ i.p.revoked, checkTime r.revocationTime = none ∧
+      ∀ d, r.invalidityDate = some d → checkTime d = none := by
+    intro r hr
+    constructor
+    · apply hinv
+      simp only [List.mem_append, List.mem_flatMap]
+      right; exact ⟨r, hr, by simp⟩
+    · intro d hd
+      apply hinv
+      simp only [List.mem_append, List.mem_flatMap]
+      right; exact ⟨r, hr, by simp [hd]⟩
+  unfold crlPanics at hnp
+  simp only [Bool.or_eq_false_iff] at hnp
+  obtain ⟨⟨⟨⟨hp1, _⟩, _⟩, _⟩, _⟩ := hnp
+  have hdn := canonical_dn i.issuer.dn (dn_oids_ok _ hp1) hcanon
+  have halg := canonical_algIdent i.issuer.key.alg
+  have halgf : crlFieldOk (algIdent i.issuer.key.alg) = true := by cases i.issuer.key.alg <;> decide
+  have hdnf : crlFieldOk (writeDistinguishedName i.issuer.dn) = true := by
+    simp only [writeDistinguishedName, Asn1.seq, crlFieldOk, List.all_map]
+    rw [List.all_eq_true]; intro e _; rfl
+  have hverc : canonical (Asn1.intOfNat 1) = true := canonical_intOfNat 1
+  have hverf : crlFieldOk (Asn1.intOfNat 1) = true := rfl
+  -- WF of the parts
+  unfold tbsCertList at htbs_wf
+  have hparts : (i.p.revoked.isEmpty = false → WFList (i.p.revoked.map revokedNode)) ∧
+      WFList (crlExtensions i.H i.p i.issuer) := by
+    cases hre : i.p.revoked.isEmpty with
+    | true =>
+      simp only [hre, if_true, Asn1.seq, Asn1.explicit, Asn1.WF, WFList, List.cons_append,
+        List.nil_append, List.append_nil] at htbs_wf
+      obtain ⟨-, -, -, -, -, -, -, -, ⟨-, -, -, ⟨-, -, -, hwl⟩, -⟩, -⟩ := htbs_wf
+      exact ⟨fun h => (by cases h), hwl⟩
+    | false =>
+      simp only [hre, Bool.false_eq_true, if_false, Asn1.seq, Asn1.explicit, Asn1.WF, WFList,
+        List.cons_append, List.nil_append] at htbs_wf
+      obtain ⟨-, -, -, -, -, -, -, -, ⟨-, -, -, hwr⟩, ⟨-, -, -, ⟨-, -, -, hwl⟩, -⟩, -⟩ := htbs_wf
+      exact ⟨fun _ => hwr, hwl⟩
+  have hexts := crlExts_canonical i hparts.2
+  have hel : canonicalList (crlExtensions i.H i.p i.issuer) = true := by
+    rw [canonicalList_eq_all, List.all_eq_true]; exact fun t ht => (hexts t ht).2
+  have hea : (crlExtensions i.H i.p i.issuer).all extCanonical = true := by
+    rw [List.all_eq_true]; exact fun t ht => (hexts t ht).1
+  have hentries : i.p.revoked.isEmpty = false →
+      canonicalList (i.p.revoked.map revokedNode) = true ∧
+      (i.p.revoked.map revokedNode).all crlEntryOk = true := by
+    intro hre
+    have hwr := hparts.1 hre
+    have hone : ∀ r ∈ i.p.revoked, canonical (revokedNode r) = true ∧ crlEntryOk (revokedNode r) = true :=
+      fun r hr => revokedNode_canonical r (wfList_mem hwr (List.mem_map_of_mem hr)) (htr r hr).1 (htr r hr).2
+    constructor
+    · exact canonicalList_map _ _ (fun r hr => (hone r hr).1)
+    · rw [List.all_map, List.all_eq_true]; exact fun r hr => (hone r hr).2
+  have hsig := canonical_bitStringOctets sig
+  have hfields : ∀ fields, fields = ([Asn1.intOfNat 1, algIdent i.issuer.key.alg,
+        writeDistinguishedName i.issuer.dn, writeTime i.p.thisUpdate, writeTime i.p.nextUpdate] ++
+        (if i.p.revoked.isEmpty then [] else [Asn1.seq (i.p.revoked.map revokedNode)]) ++
+        [Asn1.explicit 0 (.seq (crlExtensions i.H i.p i.issuer))]) →
+      canonicalList fields = true ∧ fields.all crlFieldOk = true := by
+    intro fields hf
+    subst hf
+    rw [canonicalList_append, canonicalList_append, List.all_append, List.all_append]
+    have h1 : canonicalList [Asn1.intOfNat 1, algIdent i.issuer.key.alg,
+        writeDistinguishedName i.issuer.dn, writeTime i.p.thisUpdate, writeTime i.p.nextUpdate] = true := by
+      simp [canonicalList, hverc, halg, hdn, canonical_time _ ht1, canonical_time _ ht2]
+    have h2 : [Asn1.intOfNat 1, algIdent i.issuer.key.alg,
+        writeDistinguishedName i.issuer.dn, writeTime i.p.thisUpdate, writeTime i.p.nextUpdate].all crlFieldOk = true := by
+      simp [List.all_cons, hverf, halgf, hdnf, crlFieldOk_time _ ht1, crlFieldOk_time _ ht2]
+    have h3 : canonicalList [Asn1.explicit 0 (.seq (crlExtensions i.H i.p i.issuer))] = true ∧
+        [Asn1.explicit 0 (.seq (crlExtensions i.H i.p i.issuer))].all crlFieldOk = true := by
+      constructor
+      · simp [Asn1.explicit, Asn1.seq, canonical, canonicalList, hel]
+      · simp [Asn1.explicit, Asn1.seq, crlFieldOk, extsCanonical, hea]
+    have h4 : canonicalList (if i.p.revoked.isEmpty then [] else [Asn1.seq (i.p.revoked.map revokedNode)]) = true ∧
+        (if i.p.revoked.isEmpty then [] else [Asn1.seq (i.p.revoked.map revokedNode)]).all crlFieldOk = true := by
+      cases hre : i.p.revoked.isEmpty with
+      | true => exact ⟨rfl, rfl⟩
+      | false =>
+        have := hentries hre
+        constructor
+        · simp [Asn1.seq, canonical, canonicalList, this.1]
+        · simp [Asn1.seq, crlFieldOk, this.2]
+    rw [h1, h4.1, h3.1, h2, h4.2, h3.2]
+    exact ⟨rfl, rfl⟩
+  obtain ⟨hc, hf⟩ := hfields _ rfl
+  have e : signedCrl i sig = .cons 0 16 [.cons 0 16 ([Asn1.intOfNat 1, algIdent i.issuer.key.alg,
+        writeDistinguishedName i.issuer.dn, writeTime i.p.thisUpdate, writeTime i.p.nextUpdate] ++
+        (if i.p.revoked.isEmpty then [] else [Asn1.seq (i.p.revoked.map revokedNode)]) ++
+        [Asn1.explicit 0 (.seq (crlExtensions i.H i.p i.issuer))]),
+      algIdent i.issuer.key.alg, Asn1.bitStringOctets sig] := rfl
+  rw [e]
+  simp only [canonical, canonicalList, hc, hf, halg, hsig, Bool.and_self, Bool.true_and,
+    beq_self_eq_true, Bool.true_or, Bool.and_true, if_true]
+
+/-! ### the whole CSR -/
+
+theorem bytesLe_total (a b : Bytes) : (bytesLe a b || bytesLe b a) = true := by
+  induction a generalizing b with
+  | nil => simp [bytesLe]
+  | cons x xs ih =>
+    cases b with
+    | nil => simp [bytesLe]
+    | cons y ys =>
+      simp only [bytesLe]
+      by_cases h1 : x < y
+      · simp [h1]
+      · by_cases h2 : y < x
+        · simp [h1, h2]
+        · simp only [h1, h2, if_false]; exact ih ys
+
+theorem bytesLe_trans (a b c : Bytes) (h1 : bytesLe a b = true) (h2 : bytesLe b c = true) :
+    bytesLe a c = true := by
+  induction a generalizing b c with
+  | nil => simp [bytesLe]
+  | cons x xs ih =>
+    cases b with
+    | nil => simp [bytesLe] at h1
+    | cons y ys =>
+      cases c with
+      | nil => simp [bytesLe] at h2
+      | cons z zs =>
+        simp only [bytesLe] at h1 h2 ⊢
+        by_cases hxy : x < y
+        · by_cases hyz : y < z
+          · have : x < z := UInt8.lt_trans hxy hyz
+            simp [this]
+          · by_cases hzy : z < y
+            · simp [hyz, hzy] at h2
+            · have : y = z := UInt8.le_antisymm (UInt8.not_lt.1 hzy) (UInt8.not_lt.1 hyz)
+              subst this; simp [hxy]
+        · by_cases hyx : y < x
+          · simp [hxy, hyx] at h1
+          · have hxy' : x = y := UInt8.le_antisymm (UInt8.not_lt.1 hyx) (UInt8.not_lt.1 hxy)
+            subst hxy'
+            simp only [hxy, if_false] at h1
+            by_cases hxz : x < z
+            · simp [hxz]
+            · by_cases hzx : z < x
+              · simp [hxz, hzx] at h2
+              · simp only [hxz, hzx, if_false] at h2 ⊢
+                exact ih ys zs h1 h2
+
+theorem sortedBy_of_pairwise (l : List Bytes)
+    (h : l.Pairwise (fun a b => bytesLe a b = true)) : sortedBy bytesLe l = true := by
+  induction l with
+  | nil => rfl
+  | cons a l ih =>
+    cases l with
+    | nil => rfl
+    | cons b l' =>
+      simp only [sortedBy, Bool.and_eq_true]
+      rw [List.pairwise_cons] at h
+      exact ⟨h.1 b (by simp), ih h.2⟩
+
+theorem set_of_sorted (kids : List Asn1) :
+    sortedBy bytesLe ((sortByEncoding kids).map encode) = true := by
+  apply sortedBy_of_pairwise
+  unfold sortByEncoding
+  have hp := @List.pairwise_mergeSort Asn1 (fun a b => bytesLe (encode a) (encode b))
+    (fun a b c h1 h2 => bytesLe_trans _ _ _ h1 h2) (fun a b => bytesLe_total _ _) kids
+  exact List.Pairwise.map encode (fun a b h => h) hp
+
+theorem wfList_iff (l : List Asn1) : WFList l ↔ ∀ t ∈ l, t.WF := by
+  induction l with
+  | nil => simp [WFList]
+  | cons a l ih => simp [WFList, ih]
+
+open Rcgen.Proofs.CsrDecode in
+/-- the requested extensions of a CSR are canonical: they are the same nodes a certificate
+    with the same parameters carries -/
+theorem csr_exts_canonical (i : CsrInputs) (hun : csrUnsupported i.p = false)
+    (hw : WFList (requestedExtensions i.p)) (hx : csrExtRequestPanics i.p = false)
+    (hcu : ∀ e ∈ i.p.customExts, e.oid ∉ knownOids) (hsan : i.p.sans.all sanCanon = true) :
+    ∀ t ∈ requestedExtensions i.p, extCanonical t = true ∧ canonical t = true := by
+  unfold csrUnsupported at hun
+  simp only [Bool.or_eq_false_iff, bne_eq_false_iff_eq, Bool.not_eq_false',
+    List.isEmpty_iff] at hun
+  obtain ⟨⟨⟨⟨_, hca⟩, hnc⟩, hdp⟩, haki⟩ := hun
+  have hncn : i.p.nameConstraints = none := by
+    cases h : i.p.nameConstraints with
+    | none => rfl
+    | some _ => simp [h] at hnc
+  let ci : CertInputs := ⟨⟨id, id, id⟩, i.p, i.subject, selfIssuer i.p i.subject⟩
+  have hlist : ∀ t, t ∈ certExtensions ci.H ci.p ci.subject ci.issuer ↔ t ∈ requestedExtensions i.p := by
+    intro t
+    simp only [certExtensions, requestedExtensions, ci, haki, hncn, hdp, hca, nameConstraintsExt,
+      crlDpsExt, caExts, List.mem_append, Bool.false_eq_true, if_false, List.isEmpty_nil, if_true,
+      List.not_mem_nil, false_or, or_false]
+    constructor
+    · rintro (((h | h) | h) | h)
+      · exact Or.inl (Or.inl (Or.inr h))
+      · exact Or.inl (Or.inl (Or.inl h))
+      · exact Or.inl (Or.inr h)
+      · exact Or.inr h
+    · rintro (((h | h) | h) | h)
+      · exact Or.inl (Or.inl (Or.inr h))
+      · exact Or.inl (Or.inl (Or.inl h))
+      · exact Or.inl (Or.inr h)
+      · exact Or.inr h
+  have hwc : WFList (certExtensions ci.H ci.p ci.subject ci.issuer) := by
+    rw [wfList_iff]; intro t ht
+    exact (wfList_iff _).1 hw t ((hlist t).1 ht)
+  have hxc : extensionsPanic ci.p = false := by
+    unfold csrExtRequestPanics at hx
+    simp only [Bool.or_eq_false_iff] at hx
+    simp [extensionsPanic, ci, hx.1.1, hx.1.2, hx.2, hncn, hdp, ncPanics]
+  intro t ht
+  exact exts_canonical ci hwc hxc hcu hsan (fun nc hn => by simp [ci, hncn] at hn) t ((hlist t).2 ht)
+
+namespace Csr
+open Rcgen.Proofs.CsrDecode
+
+/-- the raw-free twin of the signed request -/
+def twin (i : CsrInputs) (vals : Attribute → Asn1) (sig : Bytes) : Asn1 :=
+  .seq [.seq [.intOfNat 0, writeDistinguishedName i.p.dn, spkiNode i.subject,
+      .cons 2 0 ((sortByEncoding (csrAttributes i.p i.attrs)).map (resAttr (byBytes i.attrs vals)))],
+    algIdent i.subject.alg, .bitStringOctets sig]
+
+def signedCsr (i : CsrInputs) (sig : Bytes) : Asn1 :=
+  .seq [csrInfo i.p i.subject i.attrs, algIdent i.subject.alg, .bitStringOctets sig]
+
+theorem res_elem (i : CsrInputs) (vals : Attribute → Asn1) (hv : ValuesAreDer i.attrs vals) :
+    ∀ x ∈ sortByEncoding (csrAttributes i.p i.attrs),
+      Resolves x (resAttr (byBytes i.attrs vals) x) ∧ tagsOk (resAttr (byBytes i.attrs vals) x) = true := by
+  intro x hx
+  rcases mem_csrAttributes (mem_sorted hx) with rfl | ⟨a, ha, rfl⟩
+  · rw [resAttr_extReq]; exact ⟨resolves_refl _ (tagsOk_extReqAttr _), tagsOk_extReqAttr _⟩
+  · exact ⟨resolves_attrNode i.attrs vals hv a ha, tagsOk_resAttr_attrNode i.attrs vals hv a ha⟩
+
+theorem twin_resolves (i : CsrInputs) (vals : Attribute → Asn1) (hv : ValuesAreDer i.attrs vals)
+    (sig : Bytes) : Resolves (signedCsr i sig) (twin i vals sig) := by
+  simp only [signedCsr, twin, csrInfo, Asn1.seq, Asn1.implicit, Asn1.setOf]
+  refine .cons _ _ _ _ (.cons _ _ _ _ ?_ (.cons _ _ _ _ (resolves_refl _ (tagsOk_algIdent _))
+    (.cons _ _ _ _ (resolves_refl _ (by simp [Asn1.bitStringOctets, Asn1.bitString, tagsOk])) .nil)))
+  exact .cons _ _ _ _ (.cons _ _ _ _ (resolves_refl _ (by simp [Asn1.intOfNat, tagsOk]))
+    (.cons _ _ _ _ (resolves_refl _ (tagsOk_dn _)) (.cons _ _ _ _ (resolves_refl _ (tagsOk_spki _))
+    (.cons _ _ _ _ (.cons _ _ _ _ (resolvesList_map _ _ (fun x hx => (res_elem i vals hv x hx).1)))
+      .nil))))
+
+theorem twin_tags (i : CsrInputs) (vals : Attribute → Asn1) (hv : ValuesAreDer i.attrs vals)
+    (sig : Bytes) : tagsOk (twin i vals sig) = true := by
+  have hl := tagsOkList_map _ _ (fun x hx => (res_elem i vals hv x hx).2)
+  simp only [twin, Asn1.seq, tagsOk, tagsOkList, Bool.and_eq_true, decide_eq_true_eq]
+  refine ⟨⟨by decide, by decide⟩, ⟨⟨⟨by decide, by decide⟩, by simp [Asn1.intOfNat, tagsOk],
+    tagsOk_dn _, tagsOk_spki _, ⟨⟨by decide, by decide⟩, hl⟩, trivial⟩, tagsOk_algIdent _, ?_, trivial⟩⟩
+  simp [Asn1.bitStringOctets, Asn1.bitString, tagsOk]
+
+theorem csrAttrOk_caller (o : List Nat) (v : Asn1) (ho : oidOk o = true)
+    (hne : o ≠ [1, 2, 840, 113549, 1, 9, 14]) : csrAttrOk (.cons 0 16 [.oid o, v]) = true := by
+  have h := asOid_oid o ho
+  unfold csrAttrOk
+  split
+  · rename_i o' exts heq
+    simp only [Asn1.cons.injEq, List.cons.injEq, and_true, true_and] at heq
+    obtain ⟨rfl, _⟩ := heq
+    simp [h, hne]
+  · rfl
+
+/-- **canonical DER of a whole CSR** -/
+theorem csr_canonical (i : CsrInputs) (vals : Attribute → Asn1) (sig : Bytes)
+    (hv : ValuesAreDer i.attrs vals)
+    (hvc : ∀ a ∈ i.attrs, canonical (vals a) = true)
+    (hne : ∀ a ∈ i.attrs, a.oid ≠ [1, 2, 840, 113549, 1, 9, 14])
+    (hun : csrUnsupported i.p = false)
+    (hnp : csrPanics i.p i.attrs = false)
+    (hcu : ∀ e ∈ i.p.customExts, e.oid ∉ knownOids)
+    (hcanon : nameCanon i.p.dn = true) (hsan : i.p.sans.all sanCanon = true)
+    (hsize : (encode (signedCsr i sig)).length < 256 ^ 126) :
+    csrCanonical (encode (signedCsr i sig)) = true := by
+  have hres := twin_resolves i vals hv sig
+  have hwf : (twin i vals sig).WF :=
+    wf_of_tagsOk _ (twin_tags i vals hv sig) (by rw [← hres.encode_eq]; exact hsize)
+  unfold csrCanonical
+  rw [decodeAll_resolves hres hwf]
+  unfold csrPanics at hnp
+  simp only [Bool.or_eq_false_iff] at hnp
+  obtain ⟨⟨hp1, hp2⟩, hp3⟩ := hnp
+  have hoids : ∀ a ∈ i.attrs, oidOk a.oid = true := by
+    intro a ha
+    have := any_false_all _ _ hp3 a ha
+    simpa using this
+  let f := byBytes i.attrs vals
+  let S := sortByEncoding (csrAttributes i.p i.attrs)
+  -- WF of the resolved attribute list
+  have hwl : WFList (S.map (resAttr f)) := by
+    simp only [twin, Asn1.seq, Asn1.WF, WFList] at hwf
+    exact hwf.2.2.2.1.2.2.2.2.2.2.1.2.2.2
+  -- each resolved attribute: canonical and passes the attribute check
+  have helem : ∀ x ∈ S, canonical (resAttr f x) = true ∧ csrAttrOk (resAttr f x) = true := by
+    intro x hx
+    have hxw : (resAttr f x).WF := wfList_mem hwl (List.mem_map_of_mem hx)
+    rcases mem_csrAttributes (mem_sorted hx) with rfl | ⟨a, ha, rfl⟩
+    · rw [resAttr_extReq] at hxw ⊢
+      have hwr : writeExtensionRequest i.p = true := by
+        have hm := mem_sorted hx
+        unfold csrAttributes at hm
+        rcases List.mem_append.1 hm with h | h
+        · cases hb : writeExtensionRequest i.p with
+          | true => rfl
+          | false => simp [hb] at h
+        · obtain ⟨a, _, ha⟩ := List.mem_map.1 h
+          simp [attrNode, extensionRequestAttr, Asn1.seq, Asn1.set] at ha
+      have hx2 : csrExtRequestPanics i.p = false := by simpa [hwr] using hp2
+      have hwe : WFList (requestedExtensions i.p) := by
+        simp only [extensionRequestAttr, Asn1.seq, Asn1.set, Asn1.WF, WFList] at hxw
+        exact hxw.2.2.2.2.1.2.2.2.1.2.2.2
+      have he := csr_exts_canonical i hun hwe hx2 hcu hsan
+      have hel : canonicalList (requestedExtensions i.p) = true := by
+        rw [canonicalList_eq_all, List.all_eq_true]; exact fun t ht => (he t ht).2
+      have hea : (requestedExtensions i.p).all extCanonical = true := by
+        rw [List.all_eq_true]; exact fun t ht => (he t ht).1
+      have ho := canonical_oid [1, 2, 840, 113549, 1, 9, 14] (by decide)
+      have hao : asOid (Asn1.oid [1, 2, 840, 113549, 1, 9, 14]) = some [1, 2, 840, 113549, 1, 9, 14] :=
+        asOid_oid _ (by decide)
+      constructor
+      · simp [extensionRequestAttr, Asn1.seq, Asn1.set, canonical, canonicalList, ho, hel, sortedBy]
+      · simp [extensionRequestAttr, Asn1.seq, Asn1.set, csrAttrOk, hao, hea]
+    · obtain ⟨a', ha', hb, _⟩ := byBytes_spec i.attrs vals hv a ha
+      have hco := canonical_oid a.oid (hoids a ha)
+      constructor
+      · simp [attrNode, Asn1.seq, resAttr, f, hb, canonical, canonicalList, hco, hvc a' ha']
+      · simp only [attrNode, Asn1.seq, resAttr, f, hb]
+        exact csrAttrOk_caller a.oid _ (hoids a ha) (hne a ha)
+  have hcl : canonicalList (S.map (resAttr f)) = true :=
+    canonicalList_map _ _ (fun x hx => (helem x hx).1)
+  have hal : (S.map (resAttr f)).all csrAttrOk = true := by
+    rw [List.all_map, List.all_eq_true]; exact fun x hx => (helem x hx).2
+  have hsorted : sortedBy bytesLe ((S.map (resAttr f)).map encode) = true := by
+    have : (S.map (resAttr f)).map encode = S.map encode := by
+      rw [List.map_map]
+      apply List.map_congr_left
+      intro x hx
+      exact ((res_elem i vals hv x hx).1.encode_eq).symm
+    rw [this]; exact set_of_sorted _
+  have hdn := canonical_dn i.p.dn (dn_oids_ok _ hp1) hcanon
+  have hspk := canonical_spki i.subject
+  have halg := canonical_algIdent i.subject.alg
+  have hsig := canonical_bitStringOctets sig
+  have hver := canonical_intOfNat 0
+  simp only [twin, Asn1.seq, canonical, canonicalList, hver, hdn, hspk, halg, hsig, hcl, hal, hsorted,
+    Bool.and_self, Bool.true_and, beq_self_eq_true, Bool.true_or, Bool.and_true, if_true, S, f]
+  decide
+
+end Csr
+
 end Rcgen.Proofs.Canon
